@@ -169,11 +169,18 @@ def verifier(rep, prog, v):
         if wide and ups:
             rep.ob("PROV", "%s|k depends on the hash" % v.path, any(u.bb in v.dom.get(wide[0].bb, ()) for u, _ in main), "hash updates precede the reduction", loc=wide[0].loc())
     # call sites of the verifier: prehashed constant
-    for g in prog.callers(v):
+    ph_side = prog.reach_fns(prog.by_path.get("classic::crypto_sign::crypto_sign_final_verify", []) + cm.find_method(prog, "sign::IncrementalSigner", "verify"))
+    plain_side = prog.reach_fns(prog.by_path.get("classic::crypto_sign::crypto_sign_verify_detached", []) + prog.by_path.get("classic::crypto_sign::crypto_sign_open", [])
+                                + cm.find_method(prog, "sign::SignedMessage", "verify"))
+    v0 = getattr(v, "base", v)
+    for g in prog.callers(v0):
         for c in g.calls():
-            if v in prog.callee_fns(c) and ph is not None:
+            if v0 in prog.callee_fns(c) and ph is not None:
                 val = evaluate(expr_of_operand(g, c.args[ph - 1]), {})
-                want = "ph" in g.name
+                # the pre-hashed variant is the one below the public incremental API only
+                want = g.key in ph_side and g.key not in plain_side
+                if g.key in ph_side and g.key in plain_side:
+                    continue     # shared by both: the flag must come from its own caller
                 rep.ob("MODE", "%s|prehashed flag" % g.path, isinstance(val, (bool, int)) and bool(val) == want,
                        "%s passes prehashed=%s (pre-hashed entry point: %s)" % (g.name, val, want), loc=c.loc())
 
@@ -220,7 +227,8 @@ def callers(rep, prog, vs):
     # crypto_sign_open: message written only after verification
     cl = Clean(prog)
     for f in prog.by_path.get("classic::crypto_sign::crypto_sign_open", []) + prog.by_path.get("classic::crypto_sign_ed25519::crypto_sign_ed25519_open", []):
-        p = f.arg_local("message")
+        ps = [q for q in cm.params_of(f) if f.locals[q]["t"] == "&mut [u8]"]     # (message, signed_message, public_key)
+        p = ps[0] if len(ps) == 1 else f.arg_local("message")
         if p:
             s = cl.summary(f, p)
             rep.ob("CLEAN", "%s|message" % f.path, not s.violations,
